@@ -53,6 +53,27 @@ static std::string queries(const fs::path& p)
   return r;
 }
 
+static std::string unhex(const std::string& h)
+{
+  std::string s;
+  if (h != "-") {
+    for (size_t i = 0; i + 1 < h.size(); i += 2) {
+      s += static_cast<char>(hexval(h[i]) * 16 + hexval(h[i + 1]));
+    }
+  }
+  return s;
+}
+
+static std::string record(const std::string& s)
+{
+  const fs::path p{s};
+  return "rn=" + hex(p.root_name().native()) + " rd=" + canon(p.root_directory()) +
+         " rp=" + canon(p.root_path()) + " rel=" + hex(p.relative_path().native()) +
+         " par=" + canon(p.parent_path()) + " fn=" + hex(p.filename().native()) +
+         " st=" + hex(p.stem().native()) + " ex=" + hex(p.extension().native()) +
+         " q=" + queries(p) + " in=11111111";
+}
+
 int main()
 {
   std::string line;
@@ -60,18 +81,11 @@ int main()
     if (line == "N") {
       std::cout << "q=" << queries(fs::path{}) << "\n";
     } else if (line.size() >= 3 && line[0] == 'P' && line[1] == ' ') {
-      std::string s;
-      if (line.substr(2) != "-") {
-        for (size_t i = 2; i + 1 < line.size(); i += 2) {
-          s += static_cast<char>(hexval(line[i]) * 16 + hexval(line[i + 1]));
-        }
-      }
-      const fs::path p{s};
-      std::cout << "rn=" << hex(p.root_name().native()) << " rd=" << canon(p.root_directory())
-                << " rp=" << canon(p.root_path()) << " rel=" << hex(p.relative_path().native())
-                << " par=" << canon(p.parent_path()) << " fn=" << hex(p.filename().native())
-                << " st=" << hex(p.stem().native()) << " ex=" << hex(p.extension().native())
-                << " q=" << queries(p) << " in=11111111\n";
+      std::cout << record(unhex(line.substr(2))) << "\n";
+    } else if (line.size() >= 5 && line[0] == 'Q' && line[1] == ' ') {
+      const size_t sp = line.find(' ', 2);
+      std::cout << record(unhex(line.substr(2, sp - 2))) << " " << record(unhex(line.substr(sp + 1)))
+                << "\n";
     } else {
       std::cout << "?\n";
     }
